@@ -115,7 +115,12 @@ func c02unpackGlyf(b []byte) *glyf.Encoded {
 	if n < 0 || n > len(rest) {
 		n = len(rest)
 	}
-	return &glyf.Encoded{LocaFormat: f, LocaData: rest[:n], GlyfData: rest[n:]}
+	// both tables in memory of their own, without spare capacity behind
+	// them (as when each table is read from the file into its own buffer):
+	// a slice expression that reaches past the end of the table fails
+	loca := append([]byte(nil), rest[:n]...)
+	gl := append([]byte(nil), rest[n:]...)
+	return &glyf.Encoded{LocaFormat: f, LocaData: loca[:len(loca):len(loca)], GlyfData: gl[:len(gl):len(gl)]}
 }
 
 // hmtx.Decode takes (hhea, hmtx): packed as hhea (36 bytes) followed by hmtx.
@@ -1190,6 +1195,21 @@ func (s *c02seedSet) loadGenerated() {
 		e := c02ttGlyphs(r, 9).Encode()
 		return c02packGlyf(e.GlyfData, e.LocaData, e.LocaFormat)
 	})
+	// a composite glyph as the last glyph of the table, with instructions whose
+	// declared length is right, too large by a little, as large as the glyph,
+	// or huge
+	for _, declared := range []int{4, 5, 8, 12, 13, 21, 22, 23, 0xFFFF} {
+		declared := declared
+		gen(dGlyf, fmt.Sprintf("glyf-composite-last(instruction length %d of 4)", declared), func() []byte {
+			w := &bw{}
+			w.u16(0xFFFF, 0, 0, 100, 100) // composite, bounding box
+			w.u16(0x0102, 0).u8(5, 7)     // one component: instructions follow, x/y offsets in bytes, glyph 0
+			w.u16(declared).u8(0xB0, 0x01, 0x2F, 0x4D)
+			loca := &bw{}
+			loca.u16(0, 0, w.len()/2)
+			return c02packGlyf(w.b, loca.b, 0)
+		})
+	}
 	gen(dGlyf, "glyf-long-loca", func() []byte {
 		// many glyphs so that the total exceeds 0xFFFF*2... use format 1 explicitly by re-encoding loca
 		e := c02ttGlyphs(r, 40).Encode()
